@@ -55,7 +55,10 @@ Painter == Ins("re", <<N(0), N(0), N(2), N(2)>>) \o <<Op("B")>>
 GColor == { Ins("g", <<N(1)>>), Ins("G", <<N(0)>>), Ins("rg", <<N(1), N(0), N(0)>>), Ins("RG", <<N(0), N(1), N(0)>>),
             Ins("k", <<N(0), N(0), N(0), N(1)>>), Ins("K", <<N(1), N(0), N(0), N(0)>>), Ins("cs", <<Nm("DeviceRGB")>>), Ins("CS", <<Nm("DeviceCMYK")>>),
             <<N(1), N(0), N(1), Op("sc")>>, <<N(1), Op("scn")>>, <<N(0), N(1), N(1), N(0), Op("SCN")>>, <<Op("q")>>, <<Op("Q")>>,
-            Painter, Ins("Tj", <<Str(A)>>) }
+            Painter, Ins("Tj", <<Str(A)>>),
+            \* a colour space selected between q and Q: the space in force afterwards is the one saved by q
+            <<Op("q")>> \o Ins("cs", <<Nm("DeviceRGB")>>) \o <<Op("Q")>>, <<Op("q")>> \o Ins("CS", <<Nm("DeviceCMYK")>>) \o <<Op("Q")>>,
+            <<Op("q")>> \o Ins("rg", <<N(0), N(1), N(0)>>) \o <<Op("Q")>>, <<N(1), Op("SC")>> }
 
 \* colour spaces that come from the page's /ColorSpace resources: 1, 2, 3 and 4 components, initial colours 0 / 1, a space
 \* that cannot be used; sc/scn/SC/SCN with 1..4 operands under each of them
@@ -123,7 +126,7 @@ MixPoolAll == GPos \cup GSpace \cup GState \cup GPath \cup GPathCtm \cup GColor 
 NoPool == {}
 InitMixed == Start(PreText, Ident)
 
-AllDevs == {"TcNotTrailing", "FormNoGsInherit", "CsNoColorReset", "LoneMoveShape"}
+AllDevs == {"TcNotTrailing", "FormNoGsInherit", "CsNoColorReset", "LoneMoveShape", "QKeepsColorSpace"}
 DevRuns == {{}, AllDevs} \cup {{d} : d \in AllDevs}
 Ideal == {{}}
 =============================================================================
